@@ -251,6 +251,10 @@ class Gen:
             props["fill-rule"] = r.choice(("evenodd", "nonzero"))
         if self.opt["display_none"] and r.random() < 0.06:
             props["display"] = r.choice(("none", "inline"))
+        if r.random() < 0.06:
+            # inherited, but only currentColor would use it (not generated): renders nothing, must not survive
+            props["color"] = r.choice(("red", "#123456", "teal"))
+            self.f["color_property"] += 1
         style = []
         for k, v in props.items():
             mode = r.random()
@@ -263,7 +267,7 @@ class Gen:
             else:
                 # both, different values: style must win
                 alt = {"fill": "black" if v != "black" else "red", "fill-opacity": "0.9", "opacity": "0.6", "fill-rule": "nonzero" if v == "evenodd" else "evenodd",
-                       "display": "inline"}[k]
+                       "display": "inline", "color": "blue"}[k]
                 n.attrs[k] = alt
                 style.append(f"{k}:{v}")
                 self.f["prop_both"] += 1
